@@ -7,6 +7,8 @@ import (
 	"strings"
 	"time"
 
+	"k8s.io/cli-runtime/pkg/resource"
+
 	"github.com/np-guard/netpol-analyzer/pkg/netpol/connlist"
 
 	"verif/checks/c01"
@@ -42,6 +44,8 @@ func worlds() []*wm.World {
 		{Kind: "Deployment", NS: "ns1", Name: "w", Labels: map[string]string{"app": "a"}, Replicas: 1},
 		{Kind: "StatefulSet", NS: "ns2", Name: "w", Labels: map[string]string{"app": "b"}, Replicas: 1},
 		{Kind: "Deployment", NS: "ns2", Name: "ingress-controller", Labels: map[string]string{"app": "ic"}, Replicas: 1},
+		// a second workload ns1/w of another kind (a Pod controlled by ReplicaSet w): the focus ns1/w names both
+		{Kind: "Pod", NS: "ns1", Name: "w-0", Owner: "w", Labels: map[string]string{"app": "z"}},
 	}
 	// names that are valid DNS subdomains but not DNS labels (dots, more than 63 characters), digits first
 	odd := []wm.Workload{
@@ -246,6 +250,63 @@ func eval(cs Case, x *fw.Rec) {
 	}
 }
 
+type reuseCase struct {
+	W1, W2   int
+	Focus    string
+	Exposure bool
+	Format   string
+}
+
+func evalReuse(cs reuseCase, x *fw.Rec) {
+	ws := worlds()
+	i1, i2 := ws[cs.W1].Infos(), ws[cs.W2].Infos()
+	x.Describe(func() any {
+		return map[string]any{"first": ws[cs.W1].Brief(), "second": ws[cs.W2].Brief(), "focus": cs.Focus, "exposure": cs.Exposure, "format": cs.Format, "second manifests": ws[cs.W2].YAMLDocs()}
+	})
+	mk := func() *connlist.ConnlistAnalyzer {
+		opts := []connlist.ConnlistAnalyzerOption{connlist.WithLogger(wm.Quiet()), connlist.WithMuteErrsAndWarns(), connlist.WithOutputFormat(cs.Format), connlist.WithFocusWorkload(cs.Focus)}
+		if cs.Exposure {
+			opts = append(opts, connlist.WithExposureAnalysis())
+		}
+		return connlist.NewConnlistAnalyzer(opts...)
+	}
+	render := func(ca *connlist.ConnlistAnalyzer, infos []*resource.Info) (string, int) {
+		before := len(ca.Errors())
+		conns, peers, err := ca.ConnlistFromResourceInfos(infos)
+		if err != nil {
+			return "ERROR", len(ca.Errors()) - before
+		}
+		out, err := ca.ConnectionsListToString(conns)
+		if err != nil {
+			out = "FORMAT ERROR"
+		}
+		var ps []string
+		for _, p := range peers {
+			ps = append(ps, p.String())
+		}
+		sort.Strings(ps)
+		return out + "\n--- relation\n" + relKey(relation(conns)) + "\n--- peers\n" + strings.Join(ps, ","), len(ca.Errors()) - before
+	}
+	fresh, freshMsgs := render(mk(), i2)
+	used := mk()
+	first, _ := render(used, i1)
+	second, secondMsgs := render(used, i2)
+	x.Outcome(fmt.Sprintf("%d|%d|%s|%v|%s", cs.W1, cs.W2, cs.Focus, cs.Exposure, second))
+	if first != "ERROR" && cs.W1 != cs.W2 {
+		x.Nontrivial(fmt.Sprintf("%d|%d|%s", cs.W1, cs.W2, cs.Focus))
+	}
+	if first == "ERROR" {
+		x.Count("first_use_ended_in_an_error (an analyzer keeps its errors: not compared)", 1)
+		return
+	}
+	if second != fresh {
+		x.Fail("an analyzer used before gives another focused report than a fresh one", "", fmt.Sprintf("focus %q format %s\n--- second use\n%s\n--- fresh analyzer\n%s", cs.Focus, cs.Format, second, fresh))
+	}
+	if secondMsgs != freshMsgs {
+		x.Fail("an analyzer used before adds another number of warnings than a fresh one", "", fmt.Sprintf("focus %q: %d entries added to Errors() by the second use, %d by a fresh analyzer", cs.Focus, secondMsgs, freshMsgs))
+	}
+}
+
 // expoLines renders the exposure sections (optionally only the lines of workloads matching the focus string).
 func expoLines(pl parse.List, focus string, filter bool) string {
 	match := func(wl string) bool {
@@ -296,6 +357,22 @@ func Run(r *fw.Run) {
 		}
 		return Case{WI: wi, Focus: f, Exposure: exp}
 	}, eval)
+	// one analyzer object used for two inputs in a row: the second answer must be the one a fresh analyzer gives (the focus
+	// peers found in the first input must not survive into the second)
+	fw.Explore(r, "focus/analyzer-reuse", fw.Full, func(c *fw.Ctx) reuseCase {
+		w1 := c.Choose(len(ws), "first world")
+		w2 := c.Choose(len(ws), "second world")
+		f := fw.Pick(c, focuses, "focus workload")
+		exp := c.Choose(2, "exposure") == 1
+		if exp && (len(ws[w1].ANPs) > 0 || len(ws[w2].ANPs) > 0) {
+			c.Skip()
+		}
+		format := fw.Pick(c, []string{"txt", "dot"}, "format")
+		if r.Quick() {
+			c.Stride(5)
+		}
+		return reuseCase{W1: w1, W2: w2, Focus: f, Exposure: exp, Format: format}
+	}, evalReuse)
 	// worlds of other scopes, focus on each of their workloads (by name and by namespace/name) and on an absent one
 	type src struct {
 		name   string
